@@ -128,7 +128,10 @@ def validate_namedtuple_field_types(instance: Any) -> bool:
         tp = instance.__annotations__[f]
         if isinstance(tp, ForwardRef):
             m = import_module(instance.__module__)
-            tp = tp._evaluate(vars(m), {})
+            try:
+                tp = tp._evaluate(vars(m), {}, recursive_guard=frozenset())
+            except TypeError:  # Python < 3.9 has no recursive_guard
+                tp = tp._evaluate(vars(m), {})
         if tp == Any:
             continue
         if "typing.Union" in str(getattr(tp, "__origin__", None)):
